@@ -42,6 +42,7 @@ def bloom_union(ctx, cfg):
     ctx.check(ctx.and_([ctx.iff(r, ctx.or_(x, y)) for r, x, y in zip(bits_of(ctx, u), pa, pb)]), "bloom-union-is-or")
     if in_a or in_b:
         ctx.check(u.check_alt(key) is True, "bloom-union-reports-every-key")
+    ctx.check(u.hashes("some key") == a.hashes("some key") and u.check("some key") is u.check_alt(a.hashes("some key")), "bloom-union-keeps-strategy")
     ctx.check(ctx.and_([ctx.iff(x, y) for x, y in zip(pa + pb, bits_of(ctx, a) + bits_of(ctx, b))] +
                        [ctx.eq(ca, a.elements_added), ctx.eq(cb, b.elements_added)]), "operands-unchanged")
 
@@ -141,6 +142,9 @@ def cms_join_raw(ctx, cfg):
     ctx.check(ctx.and_([ctx.eq(r, x + y) for r, x, y in zip(env.cells(a._bins), pa, pb)]), "cms-join-is-cellwise-sum")
     ctx.check(ctx.eq(a.elements_added, ta + tb), "cms-join-total")
     ctx.check(ctx.and_(ctx.all_eq(pb, env.cells(b._bins)), ctx.eq(tb, b.elements_added)), "operands-unchanged")
+    # the receiver must not share storage with the argument: a later add on the receiver leaves the argument alone
+    a.add_alt([0] * d, 1)
+    ctx.check(ctx.and_(ctx.all_eq(pb, env.cells(b._bins)), ctx.eq(tb, b.elements_added)), "join-does-not-alias")
 
 
 HARNESS = {"c12.bloom_union": bloom_union, "c12.cbf_union": cbf_union, "c12.cms_join": cms_join, "c12.cms_join_raw": cms_join_raw, "c12.cbf_union_raw": cbf_union_raw}
